@@ -96,6 +96,18 @@ M = [
  ("repetition-board-passes-other-turn", "src/board/mod.rs", "        self.position_info.count_current_position(self.turn)", "        self.position_info.count_current_position(self.turn.opposite())", "violation", ["C17"]),
  ("benign-repetition-get-copied", "src/board/position_info.rs", "        let count = *self.position_count.get(&key).unwrap();\n        self.max_seen_position_count_stack.push(count);\n        count", "        let count = *self.position_count.get(&key).unwrap();\n        let reported = count;\n        self.max_seen_position_count_stack.push(reported);\n        reported", "ok", ["C17"]),
  ("game-forgets-history", "src/game/game.rs", "            Ok(_capture) => {\n                self.save_move(chess_move.clone());\n                Ok(())", "            Ok(_capture) => {\n                Ok(())", "violation", ["C17"]),
+ # ---- search value (C08)
+ ("cache-key-drops-depth", "src/alpha_beta_searcher/mod.rs", "        board.current_position_hash(),\n        depth,\n        maximizing_player,", "        board.current_position_hash(),\n        0,\n        maximizing_player,", "violation", ["C08"]),
+ ("cache-key-drops-side", "src/alpha_beta_searcher/mod.rs", "        depth,\n        maximizing_player,\n        alpha,", "        depth,\n        true,\n        alpha,", "violation", ["C08"]),
+ ("cache-key-swaps-window", "src/alpha_beta_searcher/mod.rs", "        maximizing_player,\n        alpha,\n        beta,\n    );", "        maximizing_player,\n        beta,\n        alpha,\n    );", "violation", ["C08"]),
+ ("search-max-node-takes-min", "src/alpha_beta_searcher/mod.rs", "            value = max(\n                value,\n                alpha_beta_minimax(", "            value = min(\n                value,\n                alpha_beta_minimax(", "violation", ["C08"]),
+ ("search-cutoff-too-early", "src/alpha_beta_searcher/mod.rs", "            alpha = max(alpha, value);\n            if beta <= alpha {", "            alpha = max(alpha, value);\n            if beta <= alpha + 50 {", "violation", ["C08"]),
+ ("search-root-picks-worst", "src/alpha_beta_searcher/mod.rs", "    if current_player_is_maximizing {\n        scored_moves.reverse();\n    }", "    if !current_player_is_maximizing {\n        scored_moves.reverse();\n    }", "violation", ["C08"]),
+ ("search-leaf-ignores-depth", "src/alpha_beta_searcher/mod.rs", "    if candidates.is_empty() {\n        let score = evaluate::score(board, move_generator, current_turn, depth);", "    if candidates.is_empty() {\n        let score = evaluate::score(board, move_generator, current_turn, 0);", "violation", ["C08"]),
+ ("search-child-same-side", "src/alpha_beta_searcher/mod.rs", "                    alpha,\n                    beta,\n                    false,\n                )", "                    alpha,\n                    beta,\n                    true,\n                )", "violation", ["C08"]),
+ ("search-returns-unsearched-move-c08", "src/alpha_beta_searcher/mod.rs", "        (score, chess_move.clone())\n", "        (score, candidates[0].clone())\n", "violation", ["C08"]),
+ ("benign-search-strict-cutoff", "src/alpha_beta_searcher/mod.rs", "            beta = min(beta, value);\n            if beta <= alpha {", "            beta = min(beta, value);\n            if beta < alpha {", "ok", ["C08", "C07"]),
+ ("benign-search-toggle-before-undo-c08", "src/alpha_beta_searcher/mod.rs", "            chess_move.undo(board).unwrap();\n            board.toggle_turn();\n\n            alpha = max(alpha, value);", "            board.toggle_turn();\n            chess_move.undo(board).unwrap();\n\n            alpha = max(alpha, value);", "ok", ["C08"]),
  # ---- the parallel perft entry point (C10, rule R20)
  ("perft-root-wrong-depth", "src/move_generator/mod.rs", "            let local_count = count_positions_inner(\n                depth - 1,", "            let local_count = count_positions_inner(\n                depth,", "violation", ["C10"]),
  ("perft-root-forgets-initial-count", "src/move_generator/mod.rs", "        initial_count + inner_counts.sum::<usize>()", "        inner_counts.sum::<usize>()", "violation", ["C10"]),
